@@ -14,9 +14,9 @@ Proof. exact decimal_decode_ok. Qed.
 Print Assumptions C11_decimal_canonical.
 
 (* the same as the cell lemma (value half and length-rule half), for any signedness flag and surrounding bytes *)
-Theorem C11_decimal_cell : forall ffmt tz jsonp p s uns neg ip fp,
+Theorem C11_decimal_cell : forall ffmt tz efmt jsonp p s uns neg ip fp,
   wf_type (TNewDecimal p s) = true -> wf_value (TNewDecimal p s) uns (VDecimal neg ip fp) = true ->
-  cell_ok ffmt tz jsonp (TNewDecimal p s) uns (VDecimal neg ip fp).
+  cell_ok ffmt tz efmt jsonp (TNewDecimal p s) uns (VDecimal neg ip fp).
 Proof. exact decimal_ok. Qed.
 Print Assumptions C11_decimal_cell.
 
